@@ -117,6 +117,15 @@ class Case:
             self.it.queue(*([obj] * k))
             evs = [evs[0]] * k
             self.acc.count('same_event_instance_queued_twice')
+        elif n >= 2 and rnd.random() < 0.15:
+            # documented form queue(name1, name2, ..., **parameters): the parameters go to every named event
+            u, d = evs[0][1], evs[0][2]
+            evs = [(nm, u, d) for (nm, _u, _d) in evs]
+            kw = dict(u=u)
+            if d:
+                kw['delay'] = d
+            self.it.queue(*[e[0] for e in evs], **kw)
+            self.acc.count('queue_several_names_with_shared_parameters')
         elif n == 1 and rnd.random() < 0.5:
             name, u, d = evs[0]
             if d:
